@@ -228,3 +228,115 @@ Example C04_st_run_example :
     length F = 117%nat /\ stream_decode toy_bdec false (S (length F)) [] [] F = Some content /\
     l_blocks (st_layout s 70 70) = [32; 32; 6] /\ l_bsid (st_layout s 70 70) = 4 /\ l_csize (st_layout s 70 70) = Some 70.
 Proof. cbv zeta. exists (mkCli 1 false (mkIo 4 32 1 1 0 1 0 0)). vm_compute. repeat split. Qed.
+
+
+(* ================================================================================================
+   THE LIBRARY CONTRACTS DISCHARGED (Proofs/CliCompInst.v).
+   The LZ4F operations of the pipelines are instantiated with the byte model of lz4frame.c
+   (Model/FrameC.v, properties C03/C07): c4_header / c4_update / c4_end / c4_frame = what
+   LZ4F_compressBegin(_usingCDict), the k-th LZ4F_compressUpdate of a session, LZ4F_compressEnd and
+   LZ4F_compressFrame_usingCDict write, for the preferences lz4io.c fills; the write register is the
+   one of lz4io.c (Model/WriteReg.v, property C13).  The contracts are PROVED for that instance from
+   FrameC's invariant, in the form in which they are true:
+   - header_contract holds as stated (c4_header_contract);
+   - update_contract is FALSE as stated (C04_update_contract_refuted): without autoFlush
+     LZ4F_compressUpdate buffers its input and writes nothing; lz4io.c always sets autoFlush = 1, and
+     update_contract_af (autoFlush set, block size id 4..7, content size below 2^64) is proved;
+   - end_contract is FALSE as stated (C04_end_contract_refuted): with a declared content size that is
+     not the real one LZ4F_compressEnd returns ERROR_frameSize_wrong; end_contract_v (valid_prefs) is
+     proved;
+   - frame_contract is proved for contents below 2^64 bytes (frame_contract_b).
+   Both refuted clauses were replayed on the real library (LZ4F_compressUpdate without autoFlush returns
+   0 bytes; LZ4F_compressEnd returns frameSize_wrong): the library is right, the contracts were too strong.
+   The pipeline theorems are re-derived from the true contracts (st/mt/cli_roundtrip_open).
+   Remaining hypotheses, exactly:
+     blk_contract strict_valid blk   - what a block compressor called by LZ4F_makeBlock writes decodes
+                                       (strict block judgment) to its input with the history offered (C01/C06/C11/C12);
+     legacy_blk_contract cblk        - (-l only) LZ4_compress_fast / _HC on a block of <= 8 MB succeeds within
+                                       LZ4_compressBound and what it writes decodes to the block (C01);
+     and, as premises on the data: fp_autoFlush <> 0 (what lz4io.c sets), contents below 2^64 bytes.
+   C04_mt_deterministic_discharged has NO hypothesis left. *)
+From LZ4V Require Model.FrameC Proofs.FrameCTheorems.
+From LZ4V Require Import Proofs.CliCompInst.
+
+Theorem C04_update_contract_refuted : forall skipcrc, ~ update_contract strict_valid skipcrc (c4_update blk_raw).
+Proof. exact update_contract_refuted. Qed.
+Print Assumptions C04_update_contract_refuted.
+
+Theorem C04_end_contract_refuted : ~ end_contract (c4_end blk_raw).
+Proof. exact end_contract_refuted. Qed.
+Print Assumptions C04_end_contract_refuted.
+
+Theorem C04_st_roundtrip_discharged :
+  forall blk, FrameCTheorems.blk_contract strict_valid blk ->
+  forall (skipcrc : bool) (p : lz4f_prefs) (blockSize : Z) (dict content : list Z),
+  1 <= blockSize -> valid_prefs p content -> fp_autoFlush p <> 0 -> lenZ content < U64_MAX1 ->
+  let F := st_output c4_header (c4_frame blk) (c4_update blk) (c4_end blk) p blockSize dict content in
+  stream_decode strict_valid skipcrc (S (length F)) dict [] F = Some content.
+Proof. exact st_roundtrip_discharged. Qed.
+Print Assumptions C04_st_roundtrip_discharged.
+
+Theorem C04_mt_roundtrip_discharged :
+  forall blk, FrameCTheorems.blk_contract strict_valid blk ->
+  forall (skipcrc : bool) (p : lz4f_prefs) (dict content : list Z),
+  valid_prefs p content -> fp_autoFlush p <> 0 -> lenZ content < U64_MAX1 ->
+  let F := mt_output c4_header (c4_frame blk) (c4_update blk) p dict content in
+  stream_decode strict_valid skipcrc (S (length F)) dict [] F = Some content.
+Proof. exact mt_roundtrip_discharged. Qed.
+Print Assumptions C04_mt_roundtrip_discharged.
+
+(* the write register of lz4io.c itself: every completion order of the jobs, every worker count *)
+Theorem C04_mt_deterministic_discharged :
+  forall blk (p : lz4f_prefs) (dict content : list Z) (nbWorkers : Z) (order : list nat),
+  1 <= nbWorkers -> CHUNK <= lenZ content ->
+  let cs := chunks_of CHUNK content in
+  let results := map (mt_chunk (c4_update blk) p dict cs) (List.seq 0 (length cs)) in
+  Permutation order (List.seq 0 (length cs)) ->
+  mt_assembled c4_header wr_real p content (map (fun i => (Z.of_nat i, nth i results [])) order)
+  = mt_output c4_header (c4_frame blk) (c4_update blk) p dict content.
+Proof. exact mt_deterministic_discharged. Qed.
+Print Assumptions C04_mt_deterministic_discharged.
+
+Theorem C04_legacy_roundtrip_discharged :
+  forall cblk, legacy_blk_contract cblk ->
+  forall (skipcrc : bool) (level : Z) (dict content : list Z),
+  let F := legacy_output (c4_block cblk) level content in
+  stream_decode strict_valid skipcrc (S (length F)) dict [] F = Some content.
+Proof. exact legacy_roundtrip_discharged. Qed.
+Print Assumptions C04_legacy_roundtrip_discharged.
+
+Theorem C04_cli_roundtrip_discharged :
+  forall blk cblk, FrameCTheorems.blk_contract strict_valid blk -> legacy_blk_contract cblk ->
+  forall (skipcrc mt : bool) (args : list arg) (s : cli_state) (fileSize : Z) (dict content : list Z),
+  parse_args cli_init args = Some s -> (fileSize = 0 \/ fileSize = lenZ content) -> lenZ content < U64_MAX1 ->
+  let F := cli_compress c4_header (c4_frame blk) (c4_update blk) (c4_end blk) (c4_block cblk) mt s fileSize dict content in
+  stream_decode strict_valid skipcrc (S (length F)) dict [] F = Some content.
+Proof. exact cli_roundtrip_discharged. Qed.
+Print Assumptions C04_cli_roundtrip_discharged.
+
+(* the remaining hypothesis is satisfiable (a block compressor that stores every block raw), the
+   write register hypothesis of C04_mt_deterministic is met by lz4io.c's own register, and the
+   instance runs: -B32 -BD -BX --content-size on 70 bytes through the FrameC model, decoded by the
+   frame specification with the strict block judgment *)
+Example C04_discharged_hypotheses_satisfiable :
+  FrameCTheorems.blk_contract strict_valid blk_raw /\ write_order_contract wr_real /\ legacy_blk_contract cblk_lit.
+Proof. split; [exact blk_raw_contract|]. split; [exact wr_real_in_order|exact cblk_lit_contract]. Qed.
+(* -l on 20 bytes with the literal-only block compressor, and the MT pipeline's small-file path *)
+Example C04_legacy_mt_discharged_run :
+  let content := map Z.of_nat (List.seq 0 20) in
+  (let F := legacy_output (c4_block cblk_lit) 1 content in
+   length F = 30%nat /\ stream_decode strict_valid false (S (length F)) [] [] F = Some content) /\
+  (let p := mkFp 0 4 0 1 0 1 1 0 in
+   let F := mt_output c4_header (c4_frame blk_raw) (c4_update blk_raw) p [] content in
+   valid_prefs p content /\ fp_autoFlush p <> 0 /\ stream_decode strict_valid false (S (length F)) [] [] F = Some content).
+Proof. vm_compute. repeat split; try reflexivity; try (intro; discriminate); try (left; reflexivity). Qed.
+Example C04_st_discharged_run :
+  let content := map Z.of_nat (List.seq 0 70) in
+  exists s, parse_args cli_init [A_B 32; A_BD; A_BX; A_content_size] = Some s /\
+    let F := cli_compress c4_header (c4_frame blk_raw) (c4_update blk_raw) (c4_end blk_raw) (fun _ c => c) false s 70 [] content in
+    length F = 117%nat /\ stream_decode strict_valid false (S (length F)) [] [] F = Some content /\
+    valid_prefs (prefs_of s 70) content /\ fp_autoFlush (prefs_of s 70) <> 0.
+Proof.
+  cbv zeta. exists (mkCli 1 false (mkIo 4 32 1 1 0 1 0 0)). vm_compute.
+  repeat split; try reflexivity; try (intro; discriminate). right. reflexivity.
+Qed.
